@@ -65,6 +65,7 @@ func (fs *filestore) Get(baseUrl HttpBaseUrl, bucket string, filename string) (*
 	}
 
 	f := fs.filename(bucket, filename)
+	verifYield("fs.get.meta-read")
 	contents, err := os.ReadFile(f)
 	if err != nil {
 		return nil, nil, fmt.Errorf("reading  %s: %w", f, err)
@@ -82,6 +83,7 @@ func (fs *filestore) GetMeta(baseUrl HttpBaseUrl, bucket string, filename string
 		return nil, fmt.Errorf("stating  %s: %w", f, err)
 	}
 
+	verifYield("fs.getmeta.stat-done")
 	return fs.ReadMeta(baseUrl, bucket, filename, fInfo)
 }
 
@@ -98,6 +100,7 @@ func (fs *filestore) Add(bucket string, filename string, contents []byte, meta *
 	// Force a new modification time, since this is what Generation is based on.
 	now := time.Now().UTC()
 	_ = os.Chtimes(f, now, now)
+	verifYield("fs.add.content-written")
 
 	InitScrubbedMeta(meta, filename)
 	meta.Metageneration = 1
